@@ -8,6 +8,7 @@ inductive St where
   | typed (t : TRing Int) (isChar : Bool)
   | cyc (c : Cyclic Int)
   | rc (c : RingCounter)
+  | bring (b : ByteRing) (mem : List Byte)
 
 def b01 (b : Bool) : String := if b then "1" else "0"
 
@@ -133,6 +134,24 @@ def stepRc (c : RingCounter) (w : List String) : RingCounter × String :=
   | ["get"] => (c, toString (rcGet c))
   | _ => (c, "bad-op")
 
+def bringState (b : ByteRing) : String :=
+  s!"{b.head - b.start} {b.tail - b.start} {b01 (brEmpty b)} {b01 (brFull b)}"
+
+def stepBring (b : ByteRing) (mem : List Byte) (w : List String) : Option (ByteRing × List Byte × String) :=
+  match w with
+  | ["push", c] => do
+      let c ← parseBytes? c; let c ← c.head?
+      let (b', m', rc) ← brPush b mem c
+      pure (b', m', toString rc)
+  | ["pushn", c] => do
+      let c ← parseBytes? c; let c ← c.head?
+      let (b', m') ← brPushNocheck b mem c
+      pure (b', m', "-")
+  | ["pop"] => do let (b', v) ← brPop b mem; pure (b', mem, toString v)
+  | ["popn"] => do let (b', v) ← brPopNocheck b mem; pure (b', mem, toString v)
+  | ["dump"] => pure (b, mem, bytesHex mem)
+  | _ => pure (b, mem, "bad-op")
+
 def stepLine (s : St) (line : String) : St × String :=
   match words line with
   | ["reset", "ring", size, blen] =>
@@ -148,6 +167,10 @@ def stepLine (s : St) (line : String) : St × String :=
   | ["reset", "cyc", n] =>
       match n.toNat? with
       | some k => let c : Cyclic Int := Cyclic.mk' 0 k; (.cyc c, s!"- {c.counter.counter} {c.fill}")
+      | none => (s, "bad-op")
+  | ["reset", "bring", n] =>
+      match n.toNat? with
+      | some k => let b := brInit 4096 k; (.bring b (initPattern k), "- " ++ bringState b)
       | none => (s, "bad-op")
   | ["reset", "rc", n] =>
       match n.toInt? with
@@ -168,6 +191,10 @@ def stepLine (s : St) (line : String) : St × String :=
     | .cyc c =>
         match stepCyc c w with
         | some (c', out) => (.cyc c', s!"{out} {c'.counter.counter} {c'.fill}")
+        | none => (s, "fault")
+    | .bring b mem =>
+        match stepBring b mem w with
+        | some (b', mem', out) => (.bring b' mem', out ++ " " ++ bringState b')
         | none => (s, "fault")
     | .rc c =>
         let (c', out) := stepRc c w
